@@ -1,5 +1,158 @@
 /-
-C15 — property theorems (stub: no theorem stated yet, so no obligation is counted).
+C15 — Index serialisation round trip keeps bytes, answers and statistics.
+PROPERTY THEOREMS ONLY (helper lemmas: Hts.Lemmas.IndexIO, Hts.Lemmas.IndexStats).
+
+`WF i` = the index is representable in the format (counts fit int32, bin numbers fit uint32 and are
+not the pseudo-bin number, offsets fit the signed 64-bit virtual offset, counters fit uint64) and its
+`IsSorted` flag is truthful.  Every index built by `Add` from the empty index has the flag false, so
+for those `WF` is representability alone (`wf_of_unsorted`); every index returned by a reader is in
+canonical form (`wf_norm`).
 -/
+import Hts.Lemmas.IndexIO
+import Hts.Lemmas.IndexStats
+import Hts.Props.C04
 namespace Hts.Props.C15
+open Hts.Model Hts.Model.Index Hts.Model.IndexIO
+
+/-! ### BAI: read ∘ write -/
+
+/-- `read_write` (BAI): reading the written bytes succeeds and gives exactly the canonical form of
+the index, for every well-formed index with at least one reference -/
+theorem bai_read_write (i : Index) (h : WF i) (hne : i.refs ≠ []) :
+    readBai (writeBai i) = .ok (some (norm i)) := readBai_writeBai i h hne
+
+/-- the full statement (no restriction on the number of references) -/
+def bai_read_write_full : Prop := ∀ i : Index, WF i → readBai (writeBai i) = .ok (some (norm i))
+
+/-- it is false: an index without references (only unplaced records, or no record) reads back as a
+nil index — DESIGN §6 #25, kept as a recorded finding -/
+theorem bai_read_write_witness : ¬ bai_read_write_full := by
+  intro h
+  have h1 := h { unmapped := some 3 }
+    { nrefs := (by decide), bounds := (by intro r hr; cases hr), flag := (by intro h; cases h),
+      um := (by intro n hn; cases hn; decide) }
+  rw [readBai_writeBai_noRefs _ rfl] at h1
+  cases h1
+
+/-- `write_norm`: the canonical form writes to the same bytes -/
+theorem bai_write_norm (i : Index) : writeBai (norm i) = writeBai i := writeBai_norm i
+
+/-- hence: write, read, write again gives identical bytes -/
+theorem bai_rewrite_identical (i : Index) (h : WF i) (hne : i.refs ≠ []) :
+    ∃ i', readBai (writeBai i) = .ok (some i') ∧ writeBai i' = writeBai i ∧ WF i' :=
+  ⟨norm i, readBai_writeBai i h hne, writeBai_norm i, wf_norm i h⟩
+
+/-- `chunks_norm`: every `Chunks` query is answered identically by the re-read index (BAI and tabix
+share `internal.Index.Chunks`) -/
+theorem chunks_norm (i : Index) (rid beg stop : Int) (bins : List Nat) :
+    chunks (norm i) rid beg stop bins = chunks i rid beg stop bins := IndexIO.chunks_norm i rid beg stop bins
+
+theorem bai_chunks_norm (s : List Chunk → List Chunk) (i : Index) (rid beg stop : Int) :
+    Bai.chunks Coord.overlappingBinsFor s (norm i) rid beg stop =
+      Bai.chunks Coord.overlappingBinsFor s i rid beg stop := by
+  unfold Bai.chunks; rw [IndexIO.chunks_norm]
+
+/-- the re-read index reports the same reference count, per-reference statistics and unplaced count -/
+theorem stats_norm (i : Index) :
+    (norm i).refs.length = i.refs.length ∧ (norm i).unmapped = i.unmapped ∧
+      ∀ j : Nat, ((norm i).refs[j]?).map (fun r : RefIndex => r.stats) =
+        (i.refs[j]?).map (fun r : RefIndex => r.stats) :=
+  ⟨norm_refs_length i, rfl, norm_stats i⟩
+
+/-- the canonical form is stable and well-formed: a previously read index can be written and read
+again any number of times -/
+theorem norm_idempotent (i : Index) : norm (norm i) = norm i := norm_norm i
+theorem norm_wf (i : Index) (h : WF i) : WF (norm i) := wf_norm i h
+
+/-- C04's completeness carries over to the index read back from the written bytes: composition of
+`chunks_complete`, `bai_read_write` and `chunks_norm` -/
+theorem bai_chunks_complete_after_roundtrip (recs : List Bai.BaiRec)
+    (h : SortedInput (recs.map Hts.Props.C04.baiRec)) (hwf : WF (Hts.Props.C04.baiBuilt recs))
+    (r : Bai.BaiRec) (hr : r ∈ recs) (hp : (Hts.Props.C04.baiRec r).placed = true)
+    (beg stop : Int) (hb : 0 ≤ beg) (hq : beg < stop) (hs29 : stop ≤ 536870912)
+    (hov1 : r.pos < stop) (hov2 : beg < r.stop) (s : List Chunk → List Chunk) (hs : EncLaw s) :
+    ∃ i', readBai (writeBai (Hts.Props.C04.baiBuilt recs)) = .ok (some i') ∧
+      ∃ cs, Bai.chunks Coord.overlappingBinsFor s i' (Hts.Props.C04.baiRec r).rid beg stop = .ok cs ∧
+        coveredBy cs r.chunk := by
+  have hmem : Hts.Props.C04.baiRec r ∈ recs.map Hts.Props.C04.baiRec := List.mem_map.2 ⟨r, hr, rfl⟩
+  obtain ⟨ref, href, _⟩ := Hts.Props.C04.bins_inv _ h _ hmem hp
+  have hne : (Hts.Props.C04.baiBuilt recs).refs ≠ [] := by
+    intro he
+    unfold Hts.Props.C04.baiBuilt Hts.Props.C04.built at he
+    rw [he] at href; simp at href
+  refine ⟨norm (Hts.Props.C04.baiBuilt recs), readBai_writeBai _ hwf hne, ?_⟩
+  rw [bai_chunks_norm]
+  exact (Hts.Props.C04.bai_chunks_complete recs h r hr hp beg stop hb hq hs29 hov1 hov2 id s encLaw_id hs).1
+
+/-! ### statistics equal the true counts -/
+
+/-- `stats_true` (`internal.Index`, hence BAI and tabix): after any coordinate-sorted sequence, for
+every reference the statistics are the true ones of the placed records of that reference (first
+chunk begin, last chunk end, number of mapped and unmapped records; no statistics iff no record), the
+unplaced counter is the number of unplaced records (absent iff nothing was added) and the reference
+count is the last placed record's reference id + 1 -/
+theorem stats_true (recs : List Rec) (h : SortedInput recs) :
+    (∀ (j : Nat) (ref : RefIndex), (addAll {} recs).1.refs[j]? = some ref →
+        ref.stats = specStats ((recs.filter (·.placed)).filter (fun a => decide (a.rid = (j : Int))))) ∧
+    (recs ≠ [] → (addAll {} recs).1.unmapped = some (recs.countP (fun r => !r.placed))) ∧
+    (recs = [] → (addAll {} recs).1.unmapped = none) ∧
+    (∀ l, (recs.filter (·.placed)).getLast? = some l → ((addAll {} recs).1.refs.length : Int) = l.rid + 1) ∧
+    (recs.filter (·.placed) = [] → (addAll {} recs).1.refs = []) := by
+  have inv := (addAll_sorted recs h).2
+  refine ⟨?_, ?_, ?_, ?_, ?_⟩
+  · intro j ref hj
+    have := (inv.refInv j ref hj).stats
+    rw [this, statsOf_spec]
+    congr 1
+    unfold onRef
+    rw [← List.filter_reverse, List.reverse_reverse]
+  · intro hne
+    have := addAll_unmapped recs {} (fun r hr => ⟨(h.ok r hr).vstart, (h.ok r hr).vstop⟩) hne
+    rw [this]; simp [umCount]
+  · intro he; subst he; rfl
+  · intro l hl
+    cases hrev : (recs.filter (·.placed)).reverse with
+    | nil =>
+      rw [List.reverse_eq_nil_iff] at hrev
+      rw [hrev] at hl; cases hl
+    | cons a rest =>
+      have hla : l = a := by
+        have : (recs.filter (·.placed)) = (a :: rest).reverse := by rw [← hrev, List.reverse_reverse]
+        rw [this] at hl
+        simpa using hl.symm
+      subst hla
+      exact (inv.last l rest hrev).1
+  · intro he
+    exact inv.len0 (by rw [he]; rfl)
+
+/-! ### non-vacuity (tests) -/
+
+/-- a well-formed index with two references, statistics, a sparse tile array and a trailer -/
+def exIdx : Index :=
+  { refs := [ ⟨[⟨4681, [⟨100, 150⟩]⟩, ⟨585, [⟨150, 200⟩]⟩], some ⟨⟨100, 200⟩, 2, 0⟩, [100, 150]⟩, {} ],
+    unmapped := some 1, isSorted := false, lastRecord := 16000 }
+
+example : WF exIdx :=
+  wf_of_unsorted _ rfl (by decide)
+    (by
+      intro r hr
+      simp only [exIdx, List.mem_cons, List.mem_nil_iff, or_false] at hr
+      rcases hr with rfl | rfl
+      · refine ⟨by decide, ?_, ?_, by decide, ?_⟩
+        · intro b hb
+          simp only [List.mem_cons, List.mem_nil_iff, or_false] at hb
+          rcases hb with rfl | rfl <;>
+            refine ⟨by decide, by decide, by decide, ?_⟩ <;> intro c hc <;>
+            simp only [List.mem_cons, List.mem_nil_iff, or_false] at hc <;> subst hc <;>
+            simp [OffOK]
+        · intro s hs; cases hs; simp [OffOK]
+        · intro v hv
+          simp only [List.mem_cons, List.mem_nil_iff, or_false] at hv
+          rcases hv with rfl | rfl <;> simp [OffOK]
+      · exact ⟨by decide, (by intro b hb; cases hb), (by intro s hs; cases hs), by decide,
+          (by intro v hv; cases hv)⟩)
+    (by intro n hn; cases hn; decide)
+
+example : exIdx.refs ≠ [] := by decide
+
 end Hts.Props.C15
